@@ -1,9 +1,92 @@
 import Drive.Json
-/-! Line-protocol handlers: Equalizer (stub until the model lands). -/
+import PlaybackModel.Equalizer
+/-! Line-protocol handlers for the Equalizer model (C08, C13).
+
+Request  `{"m":"c08.run"|"c13.run", "mode":"ded"|"inproc"|"unfixed", "keep":bool, "rate":n, "timeoutMs":n,
+           "tasks":[[id, beh]…], "k": n (comparisons consumed; omitted = all)}`
+`beh` = `{"k":"verdict","s":status,"m":msg}` | `{"k":"bare","s":status}` | `{"k":"playerRaises","m":msg}` |
+        `{"k":"extractorRaises","m":msg}` | `{"k":"comparatorRaises","m":msg}` | `{"k":"exit"}` | `{"k":"hang"}` |
+        `{"k":"late","s":status,"m":msg}`. -/
 open Lean
 namespace Drive.Equalizer
-open Drive
+open Drive PlaybackModel.Equalizer
 
-def handlers : List (String × Handler) := []
+def toStatus : String → Except String Status
+  | "Equal" => .ok .equal
+  | "Fixed" => .ok .fixed
+  | "Different" => .ok .different
+  | "Failed" => .ok .failed
+  | "EqualizerFailure" => .ok .equalizerFailure
+  | s => .error s!"bad status {s}"
+
+def statusName : Status → String
+  | .equal => "Equal"
+  | .fixed => "Fixed"
+  | .different => "Different"
+  | .failed => "Failed"
+  | .equalizerFailure => "EqualizerFailure"
+
+def toBeh (j : Json) : Except String Beh := do
+  match ← strField j "k" with
+  | "verdict" => .ok (.verdict (← toStatus (← strField j "s")) (← strField j "m"))
+  | "bare" => .ok (.bareStatus (← toStatus (← strField j "s")))
+  | "playerRaises" => .ok (.playerRaises (← strField j "m"))
+  | "extractorRaises" => .ok (.extractorRaises (← strField j "m"))
+  | "comparatorRaises" => .ok (.comparatorRaises (← strField j "m"))
+  | "exit" => .ok .workerExits
+  | "hang" => .ok .hang
+  | "late" => .ok (.late (← toStatus (← strField j "s")) (← strField j "m"))
+  | k => .error s!"bad behaviour {k}"
+
+def toTask (j : Json) : Except String Task := do
+  match ← asArr j with
+  | [i, b] => .ok ((← asNat i), (← toBeh b))
+  | _ => .error "bad task"
+
+def toCfg (j : Json) : Except String Cfg := do
+  .ok ⟨← boolField j "keep", ← natField j "rate", ← natField j "timeoutMs"⟩
+
+def jOpt {α : Type} (f : α → Json) : Option α → Json
+  | none => Json.null
+  | some a => f a
+
+def jExtracted : Extracted → Json
+  | .recorded i => jArr [Json.str "rec", jNat i]
+  | .played i => jArr [Json.str "act", jNat i]
+
+def jFlags (f : Bool × Bool) : Json := jArr [Json.bool f.1, Json.bool f.2]
+
+def jComparison (c : Comparison) : Json :=
+  jObj [("id", jNat c.recordingId), ("status", Json.str (statusName c.status)), ("message", jOpt Json.str c.message),
+        ("playback", jOpt jNat c.playback), ("expected", jOpt jExtracted c.expected), ("actual", jOpt jExtracted c.actual),
+        ("flags", jOpt jFlags c.flags)]
+
+/-- distinct epochs of `served`, with their counts, in increasing epoch order -/
+def servedTable (st : PState) : List (Nat × Nat) :=
+  (List.range st.nextEpoch).map (fun e => (e, get st.served e 0))
+
+def runH : Handler := fun j => do
+  let cfg ← toCfg j
+  let tasks ← mapM' toTask (← arrField j "tasks")
+  let mode ← strField j "mode"
+  let k ← match optField j "k" with
+    | some v => asNat v
+    | none => .ok tasks.length
+  let consumed := tasks.take k
+  if mode == "inproc" then
+    .ok (jObj [("comparisons", jArr ((runInProc cfg consumed).map jComparison))])
+  else
+    let fresh := mode != "unfixed"
+    let r := runFrom fresh cfg initState consumed
+    let st := r.1
+    .ok (jObj [("comparisons", jArr (r.2.map jComparison)),
+               ("servedBy", jArr (st.servedBy.map jNat)),
+               ("served", jArr ((servedTable st).map (fun p => jArr [jNat p.1, jNat p.2]))),
+               ("polls", jArr (st.pollsLog.map jNat)),
+               ("joinsIdle", Json.bool (st.joins.all (·.2))),
+               ("liveBeforeFinish", jNat st.live.length),
+               ("left", jNat (finish st).live.length)])
+
+def handlers : List (String × Handler) := [("c08.run", runH), ("c13.run", runH)]
 
 end Drive.Equalizer
